@@ -12,6 +12,9 @@ evaluated on the implementation after every edit + `sequence()` is a linear exte
 register-adding prologue prescribes + depth/register depth/incompatibility sets recomputed by own graph code.
 Specifications assumed for networkx (`topological_sort`, `ancestors`, `descendants`, `dag_longest_path_length`) are
 checked on every observed result.
+After every successful `group_one_qubit_gates` of a random walk the statement of `C12.group_is_fuse_of_runs_after_any_history` is
+evaluated on the implementation: every wire's operation sequence must be `fuseWire` (own Python transcription: maximal runs of
+groupable operations -> one wrapper, classes of the last operation first) of what it was before the call.
 """
 import time
 
@@ -67,6 +70,54 @@ def expected_regs(before, ed):
 
 def reg_counts(circ):
     return {t: len(circ._registers._registers[t]) for t in "epc"}
+
+
+# ---- `group_one_qubit_gates` = fuse of runs on every wire (theorem C12.group_is_fuse_of_runs_after_any_history), executed
+ONE_Q_BASE = {"Hadamard", "SigmaX", "SigmaY", "SigmaZ", "Phase", "PhaseDagger", "Identity", "RX", "RY", "RZ",
+              "ParameterizedOneQubitRotation", "OneQubitGateWrapper"}
+
+
+def wire_tokens(circ):
+    """{register: [operation token of every operation node on the wire, in wire order]}, read off the keyed edges"""
+    g = circ.dag
+    out = {}
+    for t in "epc":
+        for i in range(len(circ._registers._registers[t])):
+            k = f"{t}{i}"
+            nxt = {u: v for u, v, kk in g.edges(keys=True) if kk == k}
+            n, seq = f"{k}_in", []
+            while n in nxt and len(seq) <= len(nxt) + 1:
+                n = nxt[n]
+                if not isinstance(n, str):
+                    seq.append(du.op_token(g.nodes[n]["op"]))
+            out[k] = seq
+    return out
+
+
+def fuse_wire(r, toks):
+    """`fuseWire r` of Proofs/Fuse.lean on operation tokens: every maximal run of adjacent groupable operations (label "one-qubit",
+    one-qubit gate class) becomes ONE wrapper whose gate list is the run's classes, last operation first (nothing if that list is
+    empty); every other operation stays"""
+    out, run = [], []
+
+    def flush():
+        gates = []
+        for tok in reversed(run):
+            name, _, _, _, inner = tok.split(":")
+            gates += ([] if inner == "*" else inner.split(".")) if name == "OneQubitGateWrapper" else [name]
+        if gates:
+            out.append(f"OneQubitGateWrapper:{r}:*:one-qubit:{'.'.join(gates)}")
+        run.clear()
+
+    for tok in toks:
+        name, _, _, lab, _ = tok.split(":")
+        if "one-qubit" in lab.split(".") and name in ONE_Q_BASE:
+            run.append(tok)
+        else:
+            flush()
+            out.append(tok)
+    flush()
+    return out
 
 
 def oracle_state(circ, before_regs, ed, err):
@@ -305,10 +356,20 @@ def one_walk(ctx, res, drv, rng, init, steps, malformed_rate=0.04, query_every=1
         ed = du.gen_edit(rng, h.circ, malformed=mal, max_regs=max_regs)
         before = reg_counts(h.circ)
         full = (s % query_every == 0) or s == steps - 1
+        wires_before = wire_tokens(h.circ) if ed[0] == "G" else None
         # the un-memoised recursion of register_depth is exponential in the worst case: ask only when cheap
         err = h.step(ed, "*")
         if err == "skipped":
             continue
+        if wires_before is not None and err is None:
+            wires_after = wire_tokens(h.circ)
+            res.count("branches", "group:fuse-of-runs-evaluated")
+            for r, w in wires_before.items():
+                if wires_after.get(r) != fuse_wire(r, w):
+                    res.exact_break("group.fuse-of-runs", input=h.input(), impl=wires_after.get(r), model=fuse_wire(r, w),
+                                    note=f"wire {r} after group_one_qubit_gates is not the fuse of its maximal runs "
+                                         "(theorem group_is_fuse_of_runs_after_any_history contradicted by evaluation)")
+                    break
         res.evaluations += 1
         res.count("sizes", "nodes<=10" if len(h.circ.dag) <= 10 else ("nodes<=40" if len(h.circ.dag) <= 40 else ("nodes<=120" if len(h.circ.dag) <= 120 else "nodes>120")))
         res.branch([("mal:" if mal else "") + ed[0] + (":" + err if err else "")])
